@@ -404,6 +404,8 @@ class FnBounds(object):
             self.extent[b] = ext
             if self.prove(off, st) and self.prove(ext - off, st):
                 self.record(args[pidx], "precondition", text, "ok", "offset %s within [0, %s]" % (off, ext))
+            elif self.export_goals(args[pidx], text, [G_ for G_ in (off, ext - off) if not self.prove(G_, st)]):
+                self.record(args[pidx], "precondition", text, "ok", "passed on to this function's own callers (private helper)")
             else:
                 self.record(args[pidx], "precondition", text, "violation",
                             "cannot show 0 <= %s <= %s from the guards in force: {%s}" %
@@ -414,6 +416,8 @@ class FnBounds(object):
                 text = "%s: argument %d <= argument %d" % (g["name"], i, j)
                 if self.prove(offs[j] - offs[i], st):
                     self.record(fake, "precondition", text, "ok", "%s <= %s" % (offs[i], offs[j]))
+                elif self.export_goals(fake, text, [offs[j] - offs[i]]):
+                    self.record(fake, "precondition", text, "ok", "passed on to this function's own callers (private helper)")
                 else:
                     self.record(fake, "precondition", text, "violation", "cannot show %s <= %s" % (offs[i], offs[j]))
         for (qual, pidx), nbytes in OUT_BUFFERS.items():
@@ -1573,6 +1577,18 @@ class FnBounds(object):
                 why.append("length %s may be negative (unsigned wrap)" % n)
             self.record(node, kind, text, "violation", "; ".join(why))
 
+    def export_goals(self, node, text, goals):
+        """a private helper may leave goals over its parameters, members and container sizes to its callers: they become
+        state requirements checked at every call site.  True when all goals could be handed on."""
+        if not goals or not self.can_export_state():
+            return False
+        if not all(not G_.mentions(lambda a: a[0] not in ("call", "fld", "p0")) for G_ in goals):
+            return False
+        for G_ in goals:
+            self.state_requirements.append((G_, text))
+            self.req_nodes[(repr(G_), text)] = node["id"]
+        return True
+
     def can_export_state(self):
         """private member functions and helpers local to a source file may rely on their callers' guards"""
         f = self.f
@@ -2123,6 +2139,8 @@ class FnBounds(object):
             newsize = self.lin(args[0], st, pos)
         elif cname == "insert" and len(args) == 3 and is_int(facts.ty(f, strip(args[1]))):
             delta = self.lin(args[1], st, pos)
+        elif cname == "append" and len(args) == 2 and is_int(facts.ty(f, strip(args[0]))) and is_int(facts.ty(f, strip(args[1]))):
+            delta = self.lin(args[0], st, pos)       # string::append(n, ch)
         elif cname in ("insert", "append", "assign") and len(args) >= 2:
             A_, B_ = self.lin(args[-2], st, pos), self.lin(args[-1], st, pos)
             if A_ is not None and B_ is not None and self.base_of(A_) is not None and self.base_of(A_) == self.base_of(B_):
